@@ -200,15 +200,26 @@ def save_replay(pid, n, obj):
 FIXTURE_DIR = 'crates/lib/mimium-test/tests/mmm'
 
 
-def corpus_files(groups=None):
-    """groups: op/st/ct/cl = /verif/corpus/<group>_*.mmm ; fx = the repository's own test fixtures (those the compiler accepts
-    and the engines support are analysed, the rest is reported as skipped)"""
+GN_QUICK_STRIDE = 6
+
+
+def corpus_files(groups=None, tier='thorough', seed=0):
+    """groups: op/st/ct/cl = /verif/corpus/<group>_*.mmm ; gn = the grammar-generated programs (tools/gen_programs.py; the quick tier
+    takes every 6th of them, rotated by VERIF_SEED, the thorough tier all); fx = the repository's own test fixtures (those the
+    compiler accepts and the engines support are analysed, the rest is reported as skipped)"""
     out = []
     cdir = os.path.join(VERIF, 'corpus')
+    gn_all = os.environ.get('VERIF_GN') == 'all' or tier != 'quick'
     for fn in sorted(os.listdir(cdir)):
         if fn.endswith('.mmm'):
             g = fn.split('_')[0]
             if groups is None or g in groups:
+                if g == 'gn' and not gn_all:
+                    try:
+                        if int(fn[3:6]) % GN_QUICK_STRIDE != seed % GN_QUICK_STRIDE:
+                            continue
+                    except ValueError:
+                        continue
                 out.append(os.path.join(cdir, fn))
     if groups is not None and 'fx' in groups:
         fdir = os.path.join(REPO, FIXTURE_DIR)
